@@ -299,6 +299,16 @@ def synth_signal(rng, n, family):
         return [float(rng.randrange(k)) for _ in range(n)]
     if family == 'signed-levels':
         return [float(rng.choice([-2, -1, 0, 1, 2])) for _ in range(n)]
+    if family == 'ripple':
+        # an oscillation that is tiny compared with its offset: extrema stand out from their neighbours by a few units in the last
+        # place of the offset (round-2 seeded change: a prominence filter of 4*eps*max|X| dropped such strict extrema)
+        if rng.random() < 0.6:
+            base = rng.choice([1024.0, -4096.0, 1.0, 3.0e5])
+            u = abs(float(np.spacing(base)))
+            return [base + u * rng.randint(0, 3) for _ in range(n)]
+        base = rng.choice([1.0e6, -2.5e5])
+        f = rng.uniform(0.05, 0.3)
+        return [base + 2e-10 * math.sin(2 * math.pi * f * i + 1.0) for i in range(n)]
     if family == 'bursts':
         # order-one bursts separated by quiet stretches (1e-2 .. 1e-3): neighbouring extrema of |x| differ by orders of
         # magnitude, a cubic spline through them undershoots zero in the gaps (round-3 seeded change: 'combined' envelope clipped at 0)
@@ -328,4 +338,4 @@ def synth_signal(rng, n, family):
     return [float(v) for v in x]
 
 
-FAMILIES = ['levels', 'signed-levels', 'smooth', 'quantised', 'scaled', 'trend', 'tiny', 'bursts']
+FAMILIES = ['levels', 'signed-levels', 'smooth', 'quantised', 'scaled', 'trend', 'tiny', 'bursts', 'ripple']
